@@ -226,6 +226,14 @@ async fn process_request(ctx: ContextRef, state: Arc<GlobalState>) {
         return ctx.on_error(e).await;
     }
 
+    // UDP associations have their own idle timeout, whichever listener they came in through
+    if matches!(
+        feature,
+        context::Feature::UdpForward | context::Feature::UdpBind
+    ) {
+        ctx.write().await.set_idle_timeout(state.timeouts.udp);
+    }
+
     ctx.write()
         .await
         .set_state(ContextState::ServerConnecting)
